@@ -270,13 +270,17 @@ fn flushrace_filter(prop: &str) -> impl Fn(&String) -> bool {
     move |m: &String| match p.as_str() {
         "C07" => m.starts_with("BLOCKED"),
         "C08" => m.starts_with("RETAINED"),
-        _ => !m.starts_with("BLOCKED") && !m.starts_with("RETAINED"),
+        "C03" => m.starts_with("INCOMPLETE") || m.starts_with("span "),
+        "C04" => m.starts_with("CANCELLED-DELIVERED"),
+        _ => !m.starts_with("BLOCKED") && !m.starts_with("RETAINED") && !m.starts_with("INCOMPLETE") && !m.starts_with("CANCELLED-DELIVERED"),
     }
 }
 fn flushrace_sig(prop: &str) -> &'static str {
     match prop {
         "C07" => "blocked-on-collector:first-call-during-report",
         "C08" => "retained-after-overlapping-flushes",
+        "C03" => "flush-overlap:trace-incomplete",
+        "C04" => "flush-overlap:cancelled-trace-delivered",
         _ => "flush-overlap:not-delivered-by-flush",
     }
 }
@@ -286,7 +290,7 @@ fn flushrace_worker(prop: &str, seed: u64, wid: u64, cases: u32, out: &str, know
     let want_blocked = prop == "C07";
     let keep = flushrace_filter(prop);
     quiet_panics();
-    flushrace::install();
+    flushrace::install_with(prop == "C03" || prop == "C04");
     let strategy = flushrace::strategy();
     // a blocked call costs its whole deadline on every execution: hardly any shrinking for C07
     let cfg = Config { cases, failure_persistence: None, max_shrink_iters: if want_blocked { 3 } else { 60 }, ..Config::default() };
@@ -521,7 +525,7 @@ fn replay(args: &[String]) -> i32 {
     }
     if v["variant"].as_str() == Some("flushrace") {
         quiet_panics();
-        flushrace::install();
+        flushrace::install_with(matches!(v["property"].as_str(), Some("C03") | Some("C04")));
         let c: flushrace::FrCase = serde_json::from_value(v["program"].clone()).expect("flushrace case");
         // schedule-dependent towards missing only: try a few times
         let rp = v["property"].as_str().unwrap_or("C01").to_string();
